@@ -1,4 +1,4 @@
 #!/bin/bash
-# (authoring aid) run.sh + verify one function with expanded errors:  fn.sh <unit> <part> <file> <function>
+# (authoring aid) run.sh + verify one function with expanded errors:  fn.sh <unit> <part> <file> <function> [lines]
 cd /verif
-vx/annot/run.sh $1 $2 $3 --verify-root --verify-function "$4" --expand-errors 2>&1 | grep -v "^warning" | awk '/^note: verifying root/{p=1} p' | grep -v "^ *= \|^$" | head -${5:-80}
+vx/annot/run.sh $1 $2 $3 --verify-root --verify-function "$4" --expand-errors 2>&1 | grep -v "^warning" | awk '/^note: verifying root/{p=1} /Use curly braces|^help: convert|help: convert the identifier/{exit} p' | grep -v "^ *= \|^$\|recommendation not met" | head -${5:-80}
